@@ -165,7 +165,7 @@ func traceText(model string) (string, string) {
 
 func runC14(c *hx.Ctx) error {
 	res := c.Res
-	res.Rule = "generated concurrent programs: main composed of 1-3 shapes (pipeline with 0-2 stages, fan-in whose parent changes the passed variables after each go, WaitGroup-like counting over a channel with one shared cell per worker, several producers plus a closer goroutine and range, select over two feeders with choice-independent sum; native functions started with go / called right after / deferred), and programs whose go statements pass int, float64, string and []int arguments in every mixture from frames with 0-3 live locals of each register class, several go statements per frame, in nested calls, the caller changing the passed locals afterwards (gc is their only oracle), and programs of 1-3 closed-channel parts that use what a receive gives after close (select loops over 2-5 channels of the classes int/string/float64/[]int, several per class, fed by goroutines or prefilled, in the forms `v, ok :=`, `v :=`, `x, ok =`, `x =`, received 1-3 more times after close, with nil-channel and never-ready cases and default; scripted send/close/select sequences with one ready case whose every outcome is printed; plain receives in all statement forms; range over closed channels; send/close panics under recover with their messages; gc is their only oracle); channels unbuffered or buffered 1-3, Gosched calls at random places;, and programs of 1-3 goroutines each running a generated sequence of channel operations (send, receive in three forms, receive-ok, range until closed with nested bodies, select of 1-4 receive/send cases with or without default, close, len/cap, setting to nil) over local, goroutine-fed and nil channels, accepted by a simulator of Go's semantics (nothing blocks for ever, at most one select case is or becomes ready) with the Lean model of the same operations as second oracle (Go's reading, and the VM's reading under a Done channel with the buffer policy read off run.go), and matrices of statement forms (range over channels of 13 element kinds x `:=`/`=`/no variable x 1-3 live locals of the class x 0-3 int locals; one select whose clauses declare names from a pool of two; break in select clauses: unlabelled, labelled, conditional, in for-select, next to nested for/switch breaks) whose points hit by a recorded defect are predicted from the program alone; each run by Scriggo under GOMAXPROCS 1/2/4/8 and under the four context modes {none, Background, WithCancel never cancelled, WithDeadline far ahead} — a context that is not cancelled must not change the run — and compared with gc's output of the same source and with the Lean evaluators. Non-trivial: every program; distinct by source"
+	res.Rule = "generated concurrent programs: main composed of 1-3 shapes (pipeline with 0-2 stages, fan-in whose parent changes the passed variables after each go, WaitGroup-like counting over a channel with one shared cell per worker, several producers plus a closer goroutine and range, select over two feeders with choice-independent sum; native functions started with go / called right after / deferred), and programs whose go statements pass int, float64, string and []int arguments in every mixture from frames with 0-3 live locals of each register class, several go statements per frame, in nested calls, the caller changing the passed locals afterwards (gc is their only oracle), and programs of 1-3 closed-channel parts that use what a receive gives after close (select loops over 2-5 channels of the classes int/string/float64/[]int, several per class, fed by goroutines or prefilled, in the forms `v, ok :=`, `v :=`, `x, ok =`, `x =`, received 1-3 more times after close, with nil-channel and never-ready cases and default; scripted send/close/select sequences with one ready case whose every outcome is printed; plain receives in all statement forms; range over closed channels; send/close panics under recover with their messages; gc is their only oracle); channels unbuffered or buffered 1-3, Gosched calls at random places;, and programs of 1-3 goroutines each running a generated sequence of channel operations (send, receive in three forms, receive-ok, range until closed with nested bodies, select of 1-4 receive/send cases with or without default, close, len/cap, setting to nil) over local, goroutine-fed and nil channels, accepted by a simulator of Go's semantics (nothing blocks for ever, at most one select case is or becomes ready) with the Lean model of the same operations as second oracle (Go's reading, and the VM's reading under a Done channel with the buffer policy read off run.go), and programs of 1-3 blocks in which 1-3 go statements on a callee in one of 20 forms (declared Scriggo function, closure, literal, native direct / variadic, native or Scriggo function in a variable / slice element / map value / struct field / parameter / result of a call, native method call and method expression, builtin close) are followed, before and after the values are received, by calls in 12 forms (native with int / string / float / general / two results, variadic, with Env, Scriggo call, indirect native / Scriggo call, deferred native call) whose results are printed, and matrices of statement forms (range over channels of 13 element kinds x `:=`/`=`/no variable x 1-3 live locals of the class x 0-3 int locals; one select whose clauses declare names from a pool of two; break in select clauses: unlabelled, labelled, conditional, in for-select, next to nested for/switch breaks) whose points hit by a recorded defect are predicted from the program alone; each run by Scriggo under GOMAXPROCS 1/2/4/8 and under the four context modes {none, Background, WithCancel never cancelled, WithDeadline far ahead} — a context that is not cancelled must not change the run — and compared with gc's output of the same source and with the Lean evaluators. Non-trivial: every program; distinct by source"
 	if c.Replay != "" {
 		return replayC14(c)
 	}
@@ -192,6 +192,8 @@ func runC14(c *hx.Ctx) error {
 			} else {
 				progs = append(progs, genProgram(c.R))
 			}
+		case 4:
+			progs = append(progs, genGoCallee(c.R))
 		case 0, 5:
 			progs = append(progs, genSeq(c.R))
 		case 3, 7:
@@ -363,7 +365,7 @@ func runC14(c *hx.Ctx) error {
 		if i%41 == 0 {
 			res.Sample(map[string]string{"source": src, "gc": want[i]})
 		}
-		if len(raceSample) < c.N(0, 120) && i%3 == 0 {
+		if len(raceSample) < c.N(0, 120) && i%3 == 0 && p.shapes[0] != "gocallee" { // the race binary has package h of props/c10/run
 			rc := cs
 			rc.Inputs = make([]run.Input, 3)
 			rc.Procs = []int{1, 2, 4, 8}[i%4]
